@@ -70,7 +70,7 @@ pub fn gen_case(seed: u64, k: u64, tier: Tier) -> Case {
       x => x,
     };
     qs.push(qsx);
-    obs.push(Sx::L(vec![Sx::b(ok), Sx::b(true)]));
+    obs.push(Sx::L(vec![Sx::b(ok), Sx::judge(true)]));
   }
   let n_mod = graph.modules().count();
   Case {
